@@ -159,7 +159,7 @@ RouterPart(s, f) ==                                 \* the router nodes among th
     LET rs == SelectSeq(s, IsRouterNode) IN [i \in 1..Len(rs) |-> RIn(rs[i], f)]
 
 Deliver(draw) ==
-    /\ flight # <<>> /\ rin = <<>>
+    /\ flight # <<>> /\ rin = <<>> /\ Head(flight).net \in Nets
     /\ LET f == Head(flight)
            k == f.net
            got == IF DropRule(k, draw) THEN <<>> ELSE Served(f)
@@ -257,7 +257,7 @@ Spec == Init /\ [][Next]_vars
 (* [][M]_vars on the design; Trace_Vlan evaluates the same M on every       *)
 (* recorded step of the implementation.                                     *)
 (***************************************************************************)
-IsDeliver == act'.op = "deliver" /\ flight # <<>>
+IsDeliver == act'.op = "deliver" /\ flight # <<>> /\ Head(flight).net \in Nets
 F == Head(flight)                                   \* the frame a deliver step is about
 K == F.net
 Dropped == DropRule(K, act'.draw)
@@ -275,7 +275,7 @@ UnicastToAddressed  == (Delivering /\ ~IsBcast) => \A n \in Nodes : (On(n) /\ Ad
 UnicastNotToOthers  == (Delivering /\ ~IsBcast) => \A n \in Nodes : (On(n) /\ Addr(n) # F.dst /\ ~Prom(n)) => Got(n) = 0
 PromiscuousSeesOnce == Delivering => \A n \in Nodes : (On(n) /\ Prom(n) /\ ~(IsBcast /\ n = F.snd)) => Got(n) = 1
 BroadcastToAllOthers == (Delivering /\ IsBcast) => \A n \in Nodes : (On(n) /\ n # F.snd) => Got(n) = 1
-BroadcastNotToSender == (Delivering /\ IsBcast) => Got(F.snd) = 0
+BroadcastNotToSender == (Delivering /\ IsBcast /\ F.snd \in Nodes) => Got(F.snd) = 0
 OnlyMembersReceive  == IsDeliver => \A n \in Nodes : ~On(n) => Got(n) = 0          \* a removed node hears nothing more
 DroppedReachesNobody == (IsDeliver /\ Dropped) => \A n \in Nodes : Got(n) = 0
 ReceptionOnlyOnDelivery == ~IsDeliver => (\A n \in Nodes : rcv'[n] = rcv[n]) /\ (act'.op = "forward" \/ rin' = rin)
@@ -321,6 +321,8 @@ FlightKeepsPayload ==                                  \* a frame on its way is 
 
 \* -- the wire
 OldestFirst == act'.op = "deliver" => (flight # <<>> /\ flight' = Tail(flight))
+FlightWellFormed ==                                    \* every scheduled call is for a network of the topology and holds a frame
+    \A i \in 1..Len(flight') : flight'[i].net \in Nets /\ flight'[i].snd \in Nodes /\ flight'[i].id >= 1
 WireLogsEveryFrame ==
     IF IsDeliver THEN wire' = [wire EXCEPT ![K] = Append(@, F.id)] ELSE wire' = wire
 NoLoop == IsDeliver => ~InSeq(F.id, wire[K])           \* a frame crosses a network at most once
@@ -367,13 +369,13 @@ RouterNodeOn(k) == CHOOSE o \in Nodes : IsRouterNode(o) /\ InSeq(o, Top.member[k
 NotRoutedOnce ==
     {id \in 1..Len(sent) : \E k \in Nets :
         LET s == sent[id] IN
-        /\ k # s.net
+        /\ k # s.net /\ s.net \in Nets
         /\ Occ(id, wire[k]) #
                 (IF /\ RouterOn(s.net) /\ RouterOn(k) /\ <<id, s.net>> \notin lost
                     /\ InSubnet(s.dst, Addr(RouterNodeOn(k)), Top.node[RouterNodeOn(k)].plen)
                  THEN 1 ELSE 0)}
 RoutedExactlyOnce == Quiet => NotRoutedOnce = {}
-EverySendOnItsOwnWire == Quiet => \A id \in 1..Len(sent) : Occ(id, wire[sent[id].net]) = 1
+EverySendOnItsOwnWire == Quiet => \A id \in 1..Len(sent) : sent[id].net \in Nets /\ Occ(id, wire[sent[id].net]) = 1
 
 Shape ==
     /\ DOMAIN rcv = Nodes /\ DOMAIN wire = Nets /\ DOMAIN member = Nets /\ DOMAIN bcast = Nets
@@ -403,6 +405,7 @@ P_AcceptedSendInFlight == [][AcceptedSendInFlight]_vars
 P_OnlySendsAndForwardsEmit == [][OnlySendsAndForwardsEmit]_vars
 P_FlightKeepsPayload == [][FlightKeepsPayload]_vars
 P_OldestFirst == [][OldestFirst]_vars
+P_FlightWellFormed == [][FlightWellFormed]_vars
 P_WireLogsEveryFrame == [][WireLogsEveryFrame]_vars
 P_NoLoop == [][NoLoop]_vars
 P_ForwardToContainingNet == [][ForwardToContainingNet]_vars
